@@ -204,11 +204,48 @@ fn observe_cmd(args: &[String]) {
                 continue;
             }
         };
+        // optionally a few random manipulation calls first: the tree that is observed is then one the crate has produced
+        // itself (what the calls did is judged elsewhere; here the read-only APIs must agree with the tree as it now is)
+        let nsteps = job["steps"].as_u64().unwrap_or(0);
+        if nsteps > 0 {
+            let mut r = Rng::new(job["seed"].as_u64().unwrap_or(1));
+            let uniform = job["uniform"].as_bool().unwrap_or(false);
+            for _ in 0..nsteps {
+                let o = if uniform {
+                    // every kind of call equally often: first the call, then one of its instances on this forest
+                    let all = all_ops(&w, true);
+                    let mut names: Vec<&str> = all.iter().map(|o| o.op.as_str()).collect();
+                    names.sort();
+                    names.dedup();
+                    if let Some(only) = job["names"].as_array() {
+                        names.retain(|n| only.iter().any(|x| x.as_str() == Some(*n)));
+                    }
+                    if names.is_empty() {
+                        break;
+                    }
+                    let name = names[r.below(names.len())].to_string();
+                    let inst: Vec<&Op> = all.iter().filter(|o| o.op == name).collect();
+                    // (of four instances drawn, the one whose argument nodes have the most to lose: children, attributes, declarations)
+                    let weight = |o: &Op| -> usize { o.a.iter().map(|i| (w.xot.children(w.h(*i)).count() + w.xot.axis(xot::Axis::Attribute, w.h(*i)).count() + 2 * w.xot.namespace_declarations(w.h(*i)).len()) + usize::from(w.xot.previous_sibling(w.h(*i)).is_some())).sum() };
+                    let mut pick: &Op = inst[r.below(inst.len())];
+                    for _ in 0..3 {
+                        let other: &Op = inst[r.below(inst.len())];
+                        if weight(other) > weight(pick) {
+                            pick = other;
+                        }
+                    }
+                    pick.clone()
+                } else {
+                    random_op(&w, &mut r, "")
+                };
+                let _ = step(&mut w, &o);
+            }
+        }
         let what: Vec<String> = job["what"].as_array().map(|a| a.iter().map(|x| x.as_str().unwrap_or("").to_string()).collect()).unwrap_or_default();
         let strs = |k: &str| -> Vec<String> {
             job[k].as_array().map(|a| a.iter().map(|x| x.as_str().unwrap_or("").to_string()).collect()).unwrap_or_default()
         };
-        let mut ev = json!({"op": "observe", "what": what, "pfx": job["pfx"], "uris": job["uris"], "pairs": job["pairs"], "ign": job["ign"]});
+        let mut ev = json!({"op": "observe", "what": what, "pfx": job["pfx"], "uris": job["uris"], "pairs": job["pairs"], "ign": job["ign"], "steps": nsteps});
         let m = ev.as_object_mut().unwrap();
         for k in ["pfx", "uris", "pairs", "ign"] {
             if m[k].is_null() {
